@@ -210,7 +210,7 @@ impl Subject for dt::GeneratedFile {
         refcodec::schema::compiler_schema("GeneratedFile").unwrap()
     }
     fn to_val(&self) -> Val {
-        Val::Struct(vec![Some(Val::Str(self.path.clone())), Some(Val::Str(self.contents.clone()))])
+        Val::Struct(vec![Some(Val::Str(self.path.clone())), Some(Val::Str(String::from_utf8_lossy(AsRef::<[u8]>::as_ref(&self.contents)).into_owned()))])
     }
 }
 impl Subject for dt::DiagnosticLevel {
